@@ -28,5 +28,5 @@ end Dist
 namespace Dist
 variable {α β : Type}
 /-- push a distribution forward along `f` -/
-def map (f : α → β) (d : Dist α) : Dist β := List.map (fun (a, p) => (f a, p)) d
+def push (f : α → β) (d : Dist α) : Dist β := List.map (fun (a, p) => (f a, p)) d
 end Dist
